@@ -66,6 +66,16 @@ func (x *Exec) callStatic(fr *Frame, st *State, fn *ssa.Function, args []*SV, fr
 		upkg = x.unit.Con.Pkg
 	}
 	if con := x.eng.contractSeenFrom(upkg, fn); con != nil && (con.View || !(fr.pure && con.Pure && fn.Blocks != nil && x.eng.inlinable(fn))) {
+		if con.Implements != "" && len(con.ParamNames) == len(args)+1 {
+			// the contract's first parameter is `self`
+			var self *SV
+			if recv := fn.Signature.Recv(); recv != nil && strings.Contains(con.Implements, ".") {
+				self = TV(x.w.iface.Make(x.w.TypeID(recv.Type()), x.w.Box(recv.Type(), x.svTerm(args[0]))))
+			} else {
+				self = TV(x.fnTerm(&SV{Fn: fn, Bind: free}))
+			}
+			args = append([]*SV{self}, args...)
+		}
 		x.applyContract(fr, st, con, fn.Signature, args, site, k)
 		return
 	}
@@ -351,6 +361,34 @@ func (x *Exec) doAppend(fr *Frame, st *State, cc *ssa.CallCommon, site ssa.Instr
 		return nr
 	}
 
+	if litN >= 0 && x.unit != nil && x.unit.Spec != nil && x.unit.Spec.Options["merged-append"] {
+		// merged encoding (no path split): the result lives in the old array when it fits and in a
+		// fresh one otherwise
+		n, e := x.elemComp(st.heap, et)
+		r := x.newRef(st)
+		oldrow := Select(e, arr)
+		copyrow := w.Fresh("app.new", oldrow.Sort)
+		i := Atom("i", w.IS)
+		st.assume(Forall([]*Term{i}, Imp(And(w.Le(w.Int(0), i), w.Lt(i, ln)),
+			Eq(Select(copyrow, i), Select(oldrow, w.Add(off, i)))), []*Term{Select(copyrow, i)}))
+		ncap := w.Fresh("app.cap", w.IS)
+		st.assume(w.Le(newLen, ncap))
+		if w.Mode == "bv" {
+			st.assume(w.Le(ncap, w.Int(1<<41)))
+		}
+		fitsT := w.Define("app.fits", fits)
+		narr := Ite(fitsT, arr, r)
+		noff := Ite(fitsT, off, w.Int(0))
+		row := Ite(fitsT, oldrow, copyrow)
+		row = write(st, row, w.Add(noff, ln))
+		if litN > 0 {
+			x.writeSite(fr, st, "append", narr, et, site)
+			x.setComp(st.heap, n, Store(e, narr, row))
+			x.noteWrite(n, narr)
+		}
+		k(st, fr, TV(w.slice.Make(narr, noff, newLen, Ite(fitsT, cp, ncap))))
+		return
+	}
 	// path 1: fits (in place)
 	st1, fr1 := st.clone(), fr.clone()
 	st1.assume(fits)
